@@ -108,6 +108,12 @@ register("C04", "exploration",
  "bounded-exhaustive schedule enumeration (pre-emption bounding) + random schedules over a harness-owned scheduler, invariant over the audit/ledger",
  "DESIGN.md section 3 C04")
 
+register("C07", "exploration",
+ "(a) 2-3 public-API read-modify-write writers on one stage (16 variants: changed field x plain/transactional save x with/without retry; 3 three-writer variants) and (b) five engine pairs (two/three upstream completions recording themselves on one first-of/quorum join, CancelStage vs CompleteTask, SignalStage vs the suspending RunTask result, persistent and transient) run under ALL harness-owned schedules with a bounded number of pre-emptions at SQL-statement/commit granularity plus random deeper ones; oracle: at most one success per read version, final row = exactly the successful writers' changes, version = #successes, queue = successful transactional writers, retry => all changes; pairs: no bookkeeping lost, one consistent final state, signal neither lost nor duplicated.",
+ "Same scheduler assumptions as C04 (shared connection, baton never inside a transaction); pre-emption bound 3 (2 writers) / 1 (3 writers) in the quick tier.",
+ "bounded-exhaustive interleaving enumeration over a harness-owned scheduler, linearizability-style oracle over writer results and final row",
+ "DESIGN.md section 3 C07")
+
 NOT_APPLICABLE = {}
 
 def main():
